@@ -180,12 +180,38 @@ Section Sound.
     intros Hk E. destruct D as [_ [_ [_ [_ [_ [H31 _]]]]]]. split; [lia|]. rewrite <- E. exact (proj1 sound_letters).
   Qed.
 
+  Lemma sound_window win : In win (all_windows c) ->
+    letters_ok (nA c) win /\ k_w c = len win.
+  Proof.
+    intros Hin. unfold all_windows in Hin. apply in_concat in Hin. destruct Hin as [ws [Hws Hin]].
+    apply in_map_iff in Hws. destruct Hws as [r [<- Hr]]. split.
+    - destruct sound_letters as [_ Lr]. rewrite Forall_forall in Lr.
+      exact (windows_In_letters (nA c) (wn c) r win (Lr r Hr) Hin).
+    - apply windows_In_length in Hin. unfold wn in Hin.
+      destruct D as [_ [_ [_ [? [? _]]]]]. unfold len. lia.
+  Qed.
+
+  Lemma sound_window_text win : In win (all_windows c) ->
+    to_string (k_alpha c) (nA c) (k_w c) (le_value (nA c) win) = text_of (k_alpha c) win.
+  Proof.
+    intros Hin. destruct (sound_window win Hin) as [Lw Ew]. destruct D as [Hn _]. rewrite Ew.
+    destruct (kmer_code_le (nA c) win) as [_ E1]. rewrite <- E1. apply to_string_encode; assumption.
+  Qed.
+
+  Lemma spec_kmers_concat : concat (spec_kmers (nA c) (wn c) (k_rows c)) = map (le_value (nA c)) (all_windows c).
+  Proof.
+    unfold spec_kmers, per_row, all_windows. rewrite concat_map, map_map. reflexivity.
+  Qed.
+
   Lemma sound_op0 : k_op c = 0 -> 2 <= k_w c -> spec_ok c = true.
   Proof.
     intros Eop Hw. unfold spec_ok, model_ok in *. rewrite Hdom. rewrite Eop in *. cbn [andb].
-    apply andb_true_iff in Hm. destruct Hm as [He Ho]. rewrite He. cbn [andb].
-    apply zll_eqb_eq in Ho. rewrite Ho. unfold get_kmers.
-    rewrite get_kmers_row_local; [apply zll_eqb_refl|lia|apply keeps_stop_of; lia|apply sound_domk; lia].
+    apply andb_true_iff in Hm. destruct Hm as [Hm' Hl].
+    apply andb_true_iff in Hm'. destruct Hm' as [He Ho]. rewrite He. cbn [andb].
+    apply zll_eqb_eq in Ho, Hl. rewrite Hl, Ho. unfold get_kmers.
+    rewrite get_kmers_row_local; [|lia|apply keeps_stop_of; lia|apply sound_domk; lia].
+    fold (wn c). rewrite zll_eqb_refl. cbn [andb].
+    rewrite spec_kmers_concat, map_map. apply zll_eqb_eq. apply map_ext_in. exact sound_window_text.
   Qed.
 
   Lemma sound_op1 : k_op c = 1 -> 2 <= k_k c -> spec_ok c = true.
@@ -238,18 +264,13 @@ Section Sound.
 
   Lemma sound_op6 : k_op c = 6 -> spec_ok c = true.
   Proof.
-    intros Eop. destruct D as [Hn _]. unfold spec_ok, model_ok in *. rewrite Hdom. rewrite Eop in *. cbn [andb].
+    intros Eop. unfold spec_ok, model_ok in *. rewrite Hdom. rewrite Eop in *. cbn [andb].
     apply andb_true_iff in Hm. destruct Hm as [He Ho]. rewrite He. cbn [andb].
     apply zll_eqb_eq in Ho. rewrite Ho. apply zll_eqb_eq. apply map_ext_in. intros win Hin.
-    unfold all_windows in Hin. apply in_concat in Hin. destruct Hin as [ws [Hws Hin]].
-    apply in_map_iff in Hws. destruct Hws as [r [<- Hr]].
-    assert (Lw : letters_ok (nA c) win).
-    { destruct sound_letters as [_ Lr]. rewrite Forall_forall in Lr.
-      exact (windows_In_letters (nA c) (wn c) r win (Lr r Hr) Hin). }
-    apply windows_In_length in Hin. unfold wn in Hin.
-    assert (Ew : k_w c = len win) by (destruct D as [_ [_ [_ [? [? _]]]]]; unfold len; lia). rewrite Ew.
-    cbv zeta. rewrite to_string_encode by assumption.
-    destruct (kmer_code_le (nA c) win) as [_ E1]. rewrite E1. reflexivity.
+    destruct (sound_window win Hin) as [Lw Ew]. cbv zeta.
+    assert (E1 : encode_kmer (nA c) (k_w c) win = le_value (nA c) win)
+      by (rewrite Ew; apply (kmer_code_le (nA c) win)).
+    rewrite E1. rewrite sound_window_text by exact Hin. reflexivity.
   Qed.
 End Sound.
 
